@@ -522,3 +522,40 @@ def _optional(kind):
 def r7(ctx):
     from . import c17
     c17.r3(ctx)
+
+
+def write_existence_test(ctx):
+    """(C15.R8, C17.R9) WriteProperty refuses an unknown property, not a property whose current value happens to be
+    false (0, 0.0, '', inactive): the existence test on the value read back is `is None`"""
+    prog = ctx.prog
+    c = prog.cls("service.object", "ReadWritePropertyServices")
+    m = c.module
+    f = c.methods.get("do_WritePropertyRequest")
+    if f is None:
+        raise AnchorMissing("ReadWritePropertyServices.do_WritePropertyRequest")
+    ev = Evaluator(prog, m, c)
+    tests = []
+    for n in walk_shallow(f):
+        if isinstance(n, ast.If) and any(isinstance(x, ast.Raise) and "PropertyError" in norm(x) for x in n.body):
+            rd = [x for x in ast.walk(n.test) if isinstance(x, ast.Call) and isinstance(x.func, ast.Attribute) and x.func.attr == "ReadProperty"]
+            if rd:
+                tests.append((n, rd[0]))
+    ok = len(tests) == 1
+    why = ""
+    if ok:
+        node, rd = tests[0]
+        ct = norm(rd)
+        for v in (0, 0.0, "", 5, "x", False):
+            r = ev.eval3(node.test, {ct: v, "%s is None" % ct: False, "%s is not None" % ct: True})
+            if r is not False:
+                ok = False
+                why = "refused for the current value %r" % (v,)
+        if ok and ev.eval3(node.test, {"%s is None" % ct: True, "%s is not None" % ct: False}) is not True and "None" not in norm(node.test):
+            ok = False
+            why = "an absent property is not refused"
+    ctx.check("do_WritePropertyRequest:unknown-property-test", ok, where(m, f), "the property is unknown when reading it yields None, not when it yields a false value (%s)" % why)
+
+
+@rule("C15.R8", "a write is refused as unknownProperty only for a property that does not exist, never because its current value is false", floor=1, engines="E5")
+def r8(ctx):
+    write_existence_test(ctx)
